@@ -78,7 +78,9 @@ TH.EXTRA.update({
 
 def _filter(eng, order, size):
     order, size = eng.coerce(order, T.Opt(T.INT)), eng.coerce(size, T.Opt(T.INT))
-    return z3.And(order.is_none, size.is_none), z3.If(size.is_none, order.val.t, size.val.t - 1)
+    # without a filter the order component is irrelevant: a canonical 0, so that two mentions of "no filter" are the same term
+    none = z3.simplify(z3.And(order.is_none, size.is_none))
+    return none, z3.simplify(z3.If(none, z3.IntVal(0), z3.If(size.is_none, order.val.t, size.val.t - 1)))
 
 
 def comp_view(eng, p, h, n, order, size):
